@@ -291,6 +291,13 @@ def apply_damage(case, ecc, idx):
             recs[op[1]] = bytearray(craft_record(kind, off))
             valid = kind in MARK and off + len(MARK[kind]) <= len(ecc)
             fate[op[1]] = 'wrong' if valid and (off, MARK[kind]) != spans[op[1]] else ('ok' if valid else 'lost')
+        elif op[0] == 'copyrec':
+            # records dst .. dst+count-1 replaced, record-aligned, by the (pristine) records src .. (a sector of the index overwritten
+            # with a later sector): the replaced records are lost, every other record is intact and must still be used
+            for i_ in range(op[3]):
+                if op[1] + i_ < n and op[2] + i_ < n:
+                    recs[op[1] + i_] = bytearray(idx[27 * (op[2] + i_):27 * (op[2] + i_) + 27])
+                    fate[op[1] + i_] = 'lost'
         elif op[0] == 'cut':
             cut = op[1]
         elif op[0] == 'append':
@@ -608,6 +615,9 @@ def run(ctx):
             {'tool': 'he', 'tree': t1, 'markers': [[2, 'aa']], 'idx_ops': [['append', '31000000']], 'algo': 1},
             {'tool': 'he', 'tree': t1, 'markers': [[2, 'aa']], 'idx_ops': [['rand', 2, '5a' * 27], ['flip', 4, [[p, 7] for p in range(0, 27, 3)]]], 'algo': 2},
             {'tool': 'he', 'tree': [], 'markers': [], 'idx_ops': []},
+            # index records overwritten by LATER records of the same index (valid records, out of order), every marker destroyed
+            {'tool': 'he', 'tree': [['f%02d' % i, 'hex:4142'] for i in range(12)], 'markers': [[j, 'aa'] for j in range(60)], 'idx_ops': [['copyrec', 5, 31, 9]]},
+            {'tool': 'sa', 'tree': [['f%02d' % i, 'hex:4142'] for i in range(12)], 'markers': [[j, '00'] for j in range(60)], 'idx_ops': [['copyrec', 0, 40, 3], ['copyrec', 50, 10, 4]]},
             # an index larger than 65535 bytes (> 485 entries x 5 records x 27 bytes): records beyond that offset must be read as well
             {'tool': 'he', 'tree': [['f%03d' % i, 'hex:41'] for i in range(500)], 'markers': [[j, 'aa'] for j in range(5 * 486, 5 * 500)], 'idx_ops': [], 'nomodel': True},
         ]
